@@ -49,6 +49,8 @@ THOROUGH = QUICK + [
 SHAPE_OF = dict(c01.SHAPE_OF, last_asset_outside_horizon='windows', last_asset_outside_horizon_split='windows', split_orderbook_last='orderbook', contract_storage_win='contract_storage', orderbook_outside='orderbook',
                 two_node_T4_2n='two_node', chp='plant', scaled_take='scaled', split_T6_day_unit='two_node',
                 periodic_transport_dur='periodic')
+GRIDV_QUICK = [('two_node', 'day_d_cet_dst'), ('contract_storage_win', 'month_d'), ('plant_fuel', 'quarter_min'),
+               ('orderbook_outside', 'day_h_useast_fall'), ('multicommodity', 'hour_d_utc')]
 BOUNDS = dict(quick='shapes %s, T<=8, all numbers symbolic (Level B; split at Level A)' % [c[0] for c in QUICK],
               thorough='shapes %s' % [c[0] for c in THOROUGH])
 OUTSIDE = ['SLP problems', 'longer horizons']
@@ -56,7 +58,8 @@ OUTSIDE = ['SLP problems', 'longer horizons']
 
 def cases(tier, seed):
     lst = THOROUGH if tier == 'thorough' else QUICK
-    out = [(cid, dict(shape=SHAPE_OF.get(cid, cid), kw=dict(kw), split=split, level=level)) for cid, kw, split, level in lst]
+    lst = lst + c01.grid_variants(lst, tier, SHAPE_OF, GRIDV_QUICK)
+    out = [(cid, dict(shape=SHAPE_OF.get(cid.split('@')[0], cid.split('@')[0]), kw=dict(kw), split=split, level=level)) for cid, kw, split, level in lst]
     # two-stage stochastic problems (make_slp): the same accounting identities on the extended problem
     out.append(('slp_two_node', dict(shape='two_node', kw=dict(T=3), split='slp', level='A', slp=dict(boundary=1, S=2))))
     out.append(('slp_contract_storage', dict(shape='contract_storage', kw=dict(T=3, wacc=True), split='slp', level='A', slp=dict(boundary=2, S=1))))
